@@ -44,4 +44,5 @@ CONF = dict(
                  'reply <= 1024, well formed, authenticates under S2C, one new cookie per requested field (fewer only if one more would not fit), each new, each sealed under the provider\'s current key and opening under a valid key to the session keys; every pool cookie was pooled before, came with this call\'s key exchange or inside the authenticated reply, none from a forged datagram; '
                  'a process that dies during a history is a failure'),
     timeout_quick=900, timeout_thorough=3000,
+    min_cases={'c11.const': 1, 'c11.hist': 69, 'c11.req': 471, 'c11.resp': 540, 'c11.srv': 135, 'c11.store': 90},
 )
